@@ -52,6 +52,8 @@ def schedule_E(ck, prog, args=None):
 
 def run(args):
     ck = standard_check('C04', args, 'proof', EXPL, CHAIN, ['strict_le_5', 'shape'], extra=schedule_E)
+    # the bounds are stated on the colour the caller gets back: READ(format_color(t, f)) == t lifts them from the judged colour to the returned spelling
+    roundtrip_lemma(ck, args.tier, force_quick=True)
     ck.assume('calculate_delta_e_2000(a,b) == DE(a,b) = CIEDE2000 of the two colours, finite, >= 0, 0 for identical colours (check C11, engines B+D+E)',
               'READ(format_color(t,f)) = t (check C06) lifts the bound from the judged colour to the returned value',
               'run-time oracle comparison of DE uses the statement\'s own agreement tolerance (0.05, C11) as slack; the deductive clauses have none')
